@@ -292,6 +292,19 @@ func runC13(c *Ctx) {
 	for _, img := range images {
 		eval("authenticode.Parse+all", img, "valid")
 	}
+	// every structural rewrite of every seed once, through both entry points, with the seed's certificate
+	for _, s := range blobs {
+		for _, x := range p7Mutants(s, rng, 1) {
+			m, class := x[1].([]byte), x[0].(string)
+			vcert = cert
+			if s.cert != nil {
+				vcert = s.cert
+			}
+			eval("authenticode.ParseAuthenticode+Verify", m, class+"/each")
+			eval("pkcs7.ParsePKCS7+Verify", m, class+"/each")
+		}
+	}
+	vcert = cert
 	nSig := c.N(700, 150000)
 	for i := 0; i < nSig; i++ {
 		s := pick(rng, blobs)
